@@ -23,6 +23,10 @@ func init() {
 			{"C09.R6", "q", "uniform resynchronisation", c09r6},
 			{"C09.R7", "q", "declared sizes are the actual sizes; size validity predicates", c09r7},
 			{"C04.L4", "q", "shared: a buffered record is handed out as a copy (the queued one is written later)", c04l4},
+			{"C09.R8", "q", "buffer copies are exact; capacity written only by the allocator", c09r8},
+			{"C09.R9", "q", "resynchronisation probes every block up to the file end", c09r9},
+			{"C16.R4", "q", "shared: CRC coverage", c16r4},
+			{"C16.R4b", "q", "shared: CRC skips nothing but empty input", c16r4b},
 		},
 	})
 }
@@ -628,7 +632,8 @@ func c09r7(c *Ctx) {
 				for i, l := range s.Lhs {
 					if prog.IsField(info, "store.Meta.RecSize")(l) && len(s.Rhs) == 1 && i == 1 {
 						if call, ok := prog.Unparen(s.Rhs[0]).(*ast.CallExpr); ok && prog.CalleeKey(info, call) == "store.Record.Sizes" {
-							okR = true
+							// on every call: a record read back from a file carries RecSize = vsz
+							okR = len(f.GuardsAt(s)) == 0
 						}
 					}
 				}
@@ -636,7 +641,7 @@ func c09r7(c *Ctx) {
 			return true
 		})
 		c.check(okK && okV, R, f.Key+": header sizes = len(key), len(value)", f.Pos(), "ksz = len(rec.Key), vsz = len(rec.Payload.Body)", "the sizes written into a record header are not the lengths of the key and value that follow it")
-		c.check(okR, R, f.Key+": RecSize = padded size", f.Pos(), "_, RecSize = rec.Sizes()", "the record size used for offsets is not the padded size from Record.Sizes")
+		c.check(okR, R, f.Key+": RecSize = padded size", f.Pos(), "_, RecSize = rec.Sizes(), unconditionally", "the record size used for offsets is not (always) recomputed as the padded size from Record.Sizes: a record that was read from a file carries RecSize = value size, and appending it again advances the write head by an unaligned amount")
 	}
 	if f := c.fn(R, "config.IsValidKeySize"); f != nil {
 		info := f.Info()
@@ -661,11 +666,14 @@ func c09r7(c *Ctx) {
 		le := false
 		ast.Inspect(f.Decl.Body, func(x ast.Node) bool {
 			if be, ok := x.(*ast.BinaryExpr); ok && be.Op == token.LEQ && prog.MentionsField(info, be.Y, "config.MCConfig.BodyMax") {
-				le = true
+				// the size operand is the parameter itself, at most widened
+				if inner, wide := wideConv(info, be.X); wide && prog.ObjOf(info, inner) == f.Param(0) {
+					le = true
+				}
 			}
 			return true
 		})
-		c.check(le, R, f.Key+": vsz <= BodyMax", f.Pos(), "bounded", "the value-size validity predicate is no longer `vsz <= BodyMax`")
+		c.check(le, R, f.Key+": vsz <= BodyMax", f.Pos(), "bounded, size operand not narrowed", "the value-size validity predicate is no longer `vsz <= BodyMax` on the unsigned size (a narrowing or sign-changing conversion lets sizes ≥ 2^31 pass): a damaged header makes the scan slice far beyond its buffer instead of resynchronising")
 	}
 	if f := c.fn(R, "store.dataStore.GetRecordByPos"); f != nil {
 		info := f.Info()
